@@ -160,6 +160,26 @@ def run(ctx: Ctx, rep: Report, tier: str):
     c.r1_r2()
     c.r3()
     c.r4()
+    from rules.common import kids_sync_path_rebased
+    rep.rule("C03.R7", "a renamed folder re-bases each child's last-synced path from the child's own old last-synced path: a child rename that was not mirrored yet is not booked as mirrored (C04.R4b)", 1)
+    kids_sync_path_rebased(ctx, rep, "C03.R7")
+    # the temporary-rename flag lands on the entry whose file was moved away
+    rep.rule("C03.R6", "rename_to_fix_conflict flags TEMP_RENAME on exactly the entry whose peer file it renamed (each update_entry(E, oid=new id) is followed, under "
+             "temp_rename, by E.ignore(TEMP_RENAME) for the same E): otherwise a one-sided rename cycle is treated as a two-sided conflict", 2)
+    rf = ctx.prog.func("SyncManager.rename_to_fix_conflict")
+    g = ctx.cfg(rf)
+    ups = [c_ for c_ in ctx.calls(rf, "update_entry") if c_.args]
+    if not ups:
+        raise AnalysisError("rename_to_fix_conflict: update_entry calls not found")
+    tr = rf.params()[4] if len(rf.params()) > 4 else "temp_rename"
+    tests = {t.id for t in g.nodes if t.kind == "test" and pat.match(tr, t.ast) is not None}
+    for u in ups:
+        e_ = ast.unparse(u.args[0])
+        un = g.stmt_nodes_containing(u)
+        flag = lambda n, e_=e_: node_has_call(n, "%s.ignore(IgnoreReason.TEMP_RENAME)" % e_)   # noqa: E731
+        pth = g.reach([x.id for x in un], lambda n: n is g.exit, avoid=flag, follow=lambda a, b, l: l != "exc" and not (a in tests and l == "F"))
+        rep.check("C03.R6", "rename_to_fix_conflict|%s" % e_, ctx.line(rf, u), pth is None, "%s.ignore(TEMP_RENAME) follows update_entry(%s, ...) under temp_rename" % (e_, e_),
+                  "the entry whose file was renamed away (`%s`) is not the one flagged TEMP_RENAME" % e_, witness=describe_path(pth) if pth else None)
     from rules.C12 import C12
     rep.rule("C03.R5", "path translation between the roots decides membership with the SOURCE side's path rules and joins with the destination's, falling "
              "through to None (C12.Y2): otherwise one-sided changes under a differently spelled root are dropped as irrelevant", 3)
